@@ -365,6 +365,16 @@ func (g *gen) inlineProp() string {
 			return "value: " + b + ".value"
 		}
 	}
+	if g.chance("iprop-two", 1, 6) {
+		// two entries, one of them the key the selectivity model knows as unique
+		g.feat("inline-props-two-entries")
+		first := rapid.SampledFrom([]string{"objectid: 'S-1-5-21'", "objectid: " + g.strLit(), "name: " + g.strLit(), "value: " + g.intLit()}).Draw(g.t, "iprop-first")
+		second := rapid.SampledFrom([]string{"name: " + g.strLit(), "flag: " + g.boolLit(), "value: " + g.intLit(), "objectid: 'S-1-5-21'"}).Draw(g.t, "iprop-second")
+		if strings.SplitN(first, ":", 2)[0] != strings.SplitN(second, ":", 2)[0] {
+			return first + ", " + second
+		}
+		return first
+	}
 	switch g.pick("iprop", 3) {
 	case 0:
 		return "name: " + g.strLit()
